@@ -184,7 +184,8 @@ func (w *World) genFunc(fn *ssa.Function, c *FuncContract, base string) (g *GenU
 		fr0.regs[fv] = pv
 	}
 	fr0.bind = binds
-	if usesStreams(fn) || (c != nil && len(c.StreamInv) > 0) {
+	po, pm := producesInto(fn)
+	if usesStreams(fn) || po || pm || (c != nil && len(c.StreamInv) > 0) {
 		e.initGhosts(w, st)
 	}
 	if c != nil {
